@@ -30,6 +30,13 @@ Theorem C12_missing_tag : forall acc sites pre i s present,
 Proof. exact missing_tag. Qed.
 Print Assumptions C12_missing_tag.
 
+(* ... and only then: a key that is present is never reported missing - for every tag value (falsy ones, None as a
+   value: the harness maps them to `Some t`), every state, every site, no hypothesis at all *)
+Theorem C12_present_key_not_missing : forall acc sites x i t present,
+  snd (step acc sites x (Decode i (Some t) present)) <> Some OMissing.
+Proof. exact present_key_not_missing. Qed.
+Print Assumptions C12_present_key_not_missing.
+
 (* two histories (even over different site lists) that defined the same classes give the same answer *)
 Theorem C12_history_independent : forall acc sites1 sites2 pre1 pre2 i1 i2 s t present1 present2,
   nth_error sites1 i1 = Some s -> nth_error sites2 i2 = Some s -> s_field s = true ->
